@@ -207,7 +207,9 @@ CaseId == [lv |-> cs.level, args |-> Args(cs)]
 \* backend level: HandleOptions step by step is the abstract machine.  Refines is the statement;
 \* RefInit / RefStep say the same state by state and LIST every exception instead of stopping.
 Backend == cs.level = "backend"
-Refines == Spec        \* checked on backend-level universes only
+\* (checked on backend-level universes only; the case is shared, so "cs \in Universe" is not
+\* repeated: as an implied initial predicate TLC would rebuild the universe for every case)
+Refines == InitState /\ [][Next]_vars
 RefInit == (pc = "start" /\ Backend) =>
              (st = S0 \/ PrintT("NONREFINE " \o ToJson(CaseId @@ [step |-> "init", k |-> 0])))
 RefStep == \/ ~Backend
